@@ -70,6 +70,14 @@ REGISTRY = {
              explanation='PROVED: the GroupedList operations the merge loop is made of (group, append, sort_by, get_group, values) meet their contracts. BOUNDED: ChainedDiscretizer on seeded small '
                          'hierarchies with leaf frequencies placed around min_freq: known_values complete, every hierarchy value still present, a value keeps its own modality iff frequent, rare values merged '
                          'into an ancestor, rare intermediate groups merged further up, unknown values raise / are merged with the missing values, transform outputs the group leader.'),
+ 'C14': dict(level='other', P=[], R=['rtc.c14_selectors'],
+             explanation='BOUNDED: select of ClassificationSelector / RegressionSelector (default measures and filters) against an oracle that recomputes chi2-based Tschuprow T, Kruskal-Wallis H, '
+                         'Spearman / Pearson with scipy / pandas and replays the greedy filter: returned features are distinct inputs, at most n_best per measure, in decreasing association, pairwise '
+                         'associated at most thresh_corr, equal to the recomputed selection (cases with ties are not judged); X and y unmodified. One known finding (D6, RegressionSelector default '
+                         'quantitative measure) is reported as KNOWN-FINDING.'),
+ 'C15': dict(level='other', P=[], R=['rtc.c14_selectors'],
+             explanation='BOUNDED relational contracts on select: negation / positive rescaling of a quantitative feature, renaming of categories, row and column permutations leave the returned list '
+                         'unchanged; a copy and a strictly monotone image of the target are returned. Known finding D6 (RegressionSelector default quantitative measure) reported as KNOWN-FINDING.'),
  'C13': dict(level='proof', P=[GL_ALL], R=['rtc.c13_grouped_list'],
              explanation='GroupedList: representation invariant WF established by the three constructors and preserved by every mutating method, exact effect of each '
                          'operation on the abstract view (ordered leader -> members), observers equal to their definition over the view: proved for all inputs by engine P '
